@@ -17,10 +17,18 @@
       (argument swaps + azimuth normalisation) returns exactly `b`;
     * over the reals (Mathlib `Real.sin`, `Real.cos`, …): the Haversine and Rhumb distance
       expressions are symmetric, non-negative and zero for identical points.
+    * the rational engine of the driver (GeoModel/GeodesyNum.lean) against Mathlib's real functions
+      (helpers in GeoProofs/Lemmas/C16Q*.lean): `piQ` within 2e-40 of π; `sinQ`/`cosQ` within 2^-92 on
+      the reduced range [-piQ, piQ), 2^-91 up to |x| = 1000, for every x with the reduction multiple
+      explicit; `sqrtQ` within one grid step; `asinQ` (and `atan2Q` against `Complex.arg`) a posteriori
+      from the certificate `asinCert` that the driver evaluates on every Haversine pair; hence the driver's Haversine distance is within
+      `R·2^-40` (6 µm on the mean Earth) of the real-number formula.
   NOT proved (see lib/props/C16.py): the inverse relationship itself and the ratio division —
-  they are checked on the implementation's values by the Lean checker in GeoModel/Ops/C16.lean.
+  they are checked on the implementation's values by the Lean checker in GeoModel/Ops/C16.lean;
+  convergence of the Newton arcsine (replaced by the certificate, also inside `atan2Q`).
 -/
 import GeoModel.Geodesy
+import GeoProofs.Lemmas.C16QAtan2
 import Mathlib.Tactic.Linarith
 import Mathlib.Tactic.Ring
 import Mathlib.Tactic.NormNum
@@ -391,5 +399,213 @@ theorem rhumb_self (at2 : ℝ → ℝ → ℝ) (R : ℝ) (a : P2 ℝ) :
   have h1 : ¬ (Real.pi < 0) := by linarith
   have h2 : ¬ ((0 : ℝ) < -Real.pi) := by linarith
   simp [rhumbDistance, rhumbDelta, rhumbCalc, rhumbWrap, realTrig, h1, h2]
+
+/-! ### The rational engine of the driver against the real functions
+
+`GeoModel/GeodesyNum.lean`: Taylor series with 33 terms, every term rounded down to the 2^-100 grid,
+after reduction to `[-piQ, piQ)`; grid square root; Newton arcsine. Helper lemmas:
+`GeoProofs/Lemmas/C16Q{Series,Taylor,Trig,Asin,Hav}.lean`. -/
+
+open Geo.GeodesyNum in
+/-- [T] the engine's π: `piQ < π < piQ + 2·10^-40` (from the degree-65 Taylor polynomial of the sine
+evaluated exactly at `piQ` and `piQ + 2·10^-40` by the kernel). -/
+theorem piQ_close : (piQ : ℝ) < Real.pi ∧ Real.pi < (piQ : ℝ) + 2 / 10 ^ 40 :=
+  ⟨C16Q.piQ_lt_pi, C16Q.pi_lt_piQ_add⟩
+
+open Geo.GeodesyNum in
+/-- [T] the range reduction lands in `[-piQ, piQ)` and is the identity there; the argument handed to
+the series (rounded to the grid) satisfies `|y| ≤ 3.15`. -/
+theorem reduce_range (x : ℚ) :
+    (-piQ ≤ reduce x ∧ reduce x < piQ) ∧ |rd (reduce x)| ≤ 63 / 20 ∧
+    (-piQ ≤ x → x < piQ → reduce x = x) := by
+  refine ⟨C16Q.reduce_range x, C16Q.reduced_arg_range x, fun h1 h2 => ?_⟩
+  rw [C16Q.reduce_eq, C16Q.redK_zero x h1 h2]; simp
+
+open Geo.GeodesyNum in
+/-- [T] the rounded series themselves, on the reduced range: 64 grid steps of accumulated rounding
+(2 per term) plus a truncation error below 2^-190. -/
+theorem ratSeries_close (y : ℚ) (hy : |y| ≤ 63 / 20) :
+    |((series (y * y) 1 32 0 y y : ℚ) : ℝ) - Real.sin (y : ℝ)| ≤ 1 / 2 ^ 93 ∧
+    |((series (y * y) 0 32 0 1 1 : ℚ) : ℝ) - Real.cos (y : ℝ)| ≤ 1 / 2 ^ 93 :=
+  ⟨C16Q.sinSeries_close y hy, C16Q.cosSeries_close y hy⟩
+
+example : |(3 : ℚ)| ≤ 63 / 20 := by norm_num
+
+open Geo.GeodesyNum in
+/-- [T] `sinQ` for EVERY rational argument: 2^-92 (series 2^-93 + rounding of the reduced argument
+2^-100) plus the error of `piQ` times the multiple of `2·piQ` that the reduction removed. -/
+theorem ratSin_close (x : ℚ) :
+    |((sinQ x : ℚ) : ℝ) - Real.sin (x : ℝ)| ≤
+      1 / 2 ^ 92 + |(((x / (2 * piQ) + 1 / 2).floor : ℤ) : ℝ)| * (4 / 10 ^ 40) :=
+  C16Q.ratSin_close x
+
+open Geo.GeodesyNum in
+/-- [T] `cosQ` likewise. -/
+theorem ratCos_close (x : ℚ) :
+    |((cosQ x : ℚ) : ℝ) - Real.cos (x : ℝ)| ≤
+      1 / 2 ^ 92 + |(((x / (2 * piQ) + 1 / 2).floor : ℤ) : ℝ)| * (4 / 10 ^ 40) :=
+  C16Q.ratCos_close x
+
+open Geo.GeodesyNum in
+/-- [T] on the interval the reduction maps to, `[-piQ, piQ)`: 2^-92 (about 2e-28; the configuration
+claims 2^-60). -/
+theorem ratSinCos_close_reduced (x : ℚ) (h1 : -piQ ≤ x) (h2 : x < piQ) :
+    |((sinQ x : ℚ) : ℝ) - Real.sin (x : ℝ)| ≤ 1 / 2 ^ 92 ∧
+    |((cosQ x : ℚ) : ℝ) - Real.cos (x : ℝ)| ≤ 1 / 2 ^ 92 :=
+  ⟨C16Q.ratSin_close_reduced x h1 h2, C16Q.ratCos_close_reduced x h1 h2⟩
+
+example : -Geo.GeodesyNum.piQ ≤ (-3 : ℚ) ∧ (-3 : ℚ) < Geo.GeodesyNum.piQ := by
+  norm_num [Geo.GeodesyNum.piQ]
+
+open Geo.GeodesyNum in
+/-- [T] for every argument up to 1000 in absolute value (the driver's stay below 20): 2^-91. -/
+theorem ratSinCos_close_1000 (x : ℚ) (hx : |x| ≤ 1000) :
+    |((sinQ x : ℚ) : ℝ) - Real.sin (x : ℝ)| ≤ 1 / 2 ^ 91 ∧
+    |((cosQ x : ℚ) : ℝ) - Real.cos (x : ℝ)| ≤ 1 / 2 ^ 91 :=
+  ⟨C16Q.ratSin_close_1000 x hx, C16Q.ratCos_close_1000 x hx⟩
+
+example : |(-720 : ℚ)| ≤ 1000 := by norm_num
+
+open Geo.GeodesyNum in
+/-- [T] the grid square root, in rational arithmetic: `r ≥ 0`, `r² ≤ q < (r + 2^-100)²`, hence
+`|r² − q| ≤ 2·r·2^-100 + 2^-200`; and `sqrtQ q = 0` for `q ≤ 0`. -/
+theorem ratSqrt_close (q : ℚ) :
+    (0 ≤ q → 0 ≤ sqrtQ q ∧ sqrtQ q ^ 2 ≤ q ∧ q < (sqrtQ q + 1 / 2 ^ 100) ^ 2 ∧
+      |sqrtQ q ^ 2 - q| ≤ 2 * sqrtQ q * (1 / 2 ^ 100) + (1 / 2 ^ 100) ^ 2) ∧
+    (q ≤ 0 → sqrtQ q = 0) := by
+  refine ⟨fun hq => ?_, C16Q.sqrtQ_nonpos q⟩
+  obtain ⟨h0, h1, h2⟩ := C16Q.ratSqrt_close q hq
+  exact ⟨h0, h1, h2, C16Q.ratSqrt_residual q hq⟩
+
+example : Geo.GeodesyNum.sqrtQ 2 = 896364335596578238699711011639 / 633825300114114700748351602688 := by
+  decide +kernel
+
+open Geo.GeodesyNum in
+/-- [T] against the real square root: `r ≤ √q < r + 2^-100`. -/
+theorem ratSqrt_real (q : ℚ) (hq : 0 ≤ q) :
+    ((sqrtQ q : ℚ) : ℝ) ≤ Real.sqrt (q : ℝ) ∧ Real.sqrt (q : ℝ) < ((sqrtQ q : ℚ) : ℝ) + 1 / 2 ^ 100 :=
+  C16Q.ratSqrt_real q hq
+
+open Geo.GeodesyNum in
+/-- [T] inverting the cosine a posteriori (what the next two theorems rest on): `A` within `t` of
+`[0, π]`, `|cos A − x| ≤ η` ⟹ `|A − arccos x| ≤ 2t + π·√(η/2)`. -/
+theorem arccos_a_posteriori (A x t η : ℝ) (ht : 0 ≤ t) (hA1 : -t ≤ A) (hA2 : A ≤ Real.pi + t)
+    (hx1 : -1 ≤ x) (hx2 : x ≤ 1) (h : |Real.cos A - x| ≤ η) :
+    |A - Real.arccos x| ≤ 2 * t + Real.pi * Real.sqrt (η / 2) :=
+  C16Q.arccos_post A x t η ht hA1 hA2 hx1 hx2 h
+
+example : (0 : ℝ) ≤ 0 ∧ |Real.cos 0 - 1| ≤ 0 := by simp
+
+open Geo.GeodesyNum in
+/-- [T] (a posteriori) the Newton arcsine against `Real.arcsin`, GIVEN the certificate `asinCert x`
+(result within 2^-44 of the right quarter turn; the engine's own sine of the result within 2^-90 of `x`):
+`2^-42` rad — the true error is about 1e-14 next to `|x| = 1` (where the result can overshoot π/2 by
+that much) and 1e-29 elsewhere. -/
+theorem ratAsin_close_partial (x : ℚ) (hx : |x| ≤ 1) (hc : asinCert x = true) :
+    |((asinQ x : ℚ) : ℝ) - Real.arcsin (x : ℝ)| ≤ 1 / 2 ^ 42 :=
+  C16Q.ratAsin_close_partial x hx hc
+-- full statement (not proved: the convergence of the Newton iteration with rounded steps is not):
+--   ∀ x, |x| ≤ 1 → |asinQ x − arcsin x| ≤ 2^-42, i.e. `asinCert x = true` for every grid point x.
+-- The certificate is a computable check; the driver evaluates it on every Haversine pair.
+-- It FAILS for some off-grid x within 2^-190 of ±1 (the iteration divides by a cosine of 1–2 grid
+-- steps); `sqrtQ` only produces grid points, which is what `havDistance` feeds it.
+
+example : |(1 / 2 : ℚ)| ≤ 1 ∧ Geo.GeodesyNum.asinCert (1 / 2) = true :=
+  ⟨by norm_num, by decide +kernel⟩
+
+open Geo.GeodesyNum in
+/-- [T] (a posteriori) `atan2Q y x` against Mathlib's two-argument arctangent `Complex.arg (x + y·i)`
+(range (-π, π], the convention of libm's `atan2` away from the signed zeros): within `2^-41` when the
+grid root of `x² + y²` is at least `2^-40`, GIVEN the certificate of the one arcsine the branch calls
+(on the smaller of `y/r`, `x/r`, so `|·| ≤ 0.71`: there the true error is about 1e-27). -/
+theorem ratAtan2_close_partial (y x : ℚ) (hr : 1 / 2 ^ 40 ≤ sqrtQ (x * x + y * y))
+    (hc : asinCert ((if rabs y ≤ rabs x then y else x) / sqrtQ (x * x + y * y)) = true) :
+    |((atan2Q y x : ℚ) : ℝ) - Complex.arg ⟨(x : ℝ), (y : ℝ)⟩| ≤ 1 / 2 ^ 41 :=
+  C16Q.ratAtan2_close y x hr hc
+-- full statement (not proved): without the certificate, and for every (x, y) ≠ (0, 0) (for a tiny root the
+-- division by the grid root loses relative accuracy: the bound is `2^-100 / r`).
+-- The driver does NOT evaluate this certificate (bearing / destination comparisons); only `havCert`.
+
+example : (1 : ℚ) / 2 ^ 40 ≤ Geo.GeodesyNum.sqrtQ ((-4) * (-4) + 3 * 3) ∧
+    Geo.GeodesyNum.asinCert ((if rabs (3 : ℚ) ≤ rabs (-4 : ℚ) then (3 : ℚ) else -4) /
+      Geo.GeodesyNum.sqrtQ ((-4) * (-4) + 3 * 3)) = true := by
+  decide +kernel
+
+/-- the point with real coordinates -/
+abbrev castP (a : P2 ℚ) : P2 ℝ := C16Q.castP a
+
+open Geo.GeodesyNum in
+theorem havDistance_rat_eq (R : ℚ) (a b : P2 ℚ) :
+    havDistance ratTrig R a b = R * ((1 + 1) * asinQ (sqrtQ (havH ratTrig a b))) := rfl
+
+theorem havDistance_real_eq (at2 : ℝ → ℝ → ℝ) (R : ℝ) (a b : P2 ℝ) :
+    havDistance (realTrig at2) R a b = R * ((1 + 1) * Real.arcsin (Real.sqrt (C16Q.hReal a b))) := rfl
+
+open Geo.GeodesyNum in
+/-- [T] the engine's `h` is within 2^-87 of the real one, and the real one is in `[0, 1]`. -/
+theorem haversine_h_close (at2 : ℝ → ℝ → ℝ) (a b : P2 ℚ) (ha : |a.2| ≤ 90) (hb : |b.2| ≤ 90)
+    (hl : |b.1 - a.1| ≤ 1000) :
+    |((havH ratTrig a b : ℚ) : ℝ) - havH (realTrig at2) (castP a) (castP b)| ≤ 1 / 2 ^ 87 ∧
+    0 ≤ havH (realTrig at2) (castP a) (castP b) ∧ havH (realTrig at2) (castP a) (castP b) ≤ 1 :=
+  ⟨C16Q.h_close a b ha hb hl, C16Q.hReal_range a b ha hb⟩
+
+open Geo.GeodesyNum in
+/-- [T] the driver's rational Haversine distance against the real-number formula (Mathlib's `Real.sin`,
+`Real.cos`, `Real.sqrt`, `Real.arcsin`, `Real.pi`): within `R·2^-40` for latitudes in [-90, 90] and a
+longitude difference up to 1000 degrees, GIVEN the arcsine certificate `havCert a b` that the driver
+evaluates on every pair (a failure is reported as a model mismatch). -/
+theorem haversine_distance_engine_close_partial (at2 : ℝ → ℝ → ℝ) (R : ℚ) (hR : 0 ≤ R) (a b : P2 ℚ)
+    (ha : |a.2| ≤ 90) (hb : |b.2| ≤ 90) (hl : |b.1 - a.1| ≤ 1000) (hc : havCert a b = true) :
+    |((havDistance ratTrig R a b : ℚ) : ℝ) - havDistance (realTrig at2) (R : ℝ) (castP a) (castP b)|
+      ≤ (R : ℝ) / 2 ^ 40 := by
+  rw [havDistance_rat_eq, havDistance_real_eq]
+  have h := C16Q.central_angle_close a b ha hb hl hc
+  have hRR : (0 : ℝ) ≤ (R : ℝ) := by exact_mod_cast hR
+  rw [Rat.cast_mul, ← mul_sub, abs_mul, abs_of_nonneg hRR, div_eq_mul_one_div]
+  exact mul_le_mul_of_nonneg_left h hRR
+-- full statement (not proved): the same without `havCert a b = true` (needs convergence of the Newton
+-- arcsine on grid points).
+
+example : |((10 : ℚ), (50 : ℚ)).2| ≤ 90 ∧ |((-170 : ℚ), (-35 : ℚ)).2| ≤ 90 ∧
+    |((-170 : ℚ), (-35 : ℚ)).1 - ((10 : ℚ), (50 : ℚ)).1| ≤ 1000 ∧
+    Geo.GeodesyNum.havCert ((10 : ℚ), (50 : ℚ)) ((-170 : ℚ), (-35 : ℚ)) = true :=
+  ⟨by norm_num, by norm_num, by norm_num, by decide +kernel⟩
+
+open Geo.GeodesyNum in
+/-- [T] in general position the single inversion is Lipschitz too: if the engine's `h` stays
+`δ²/4 + 2^-87` away from 0 and 1 and its arcsine `δ/2` away from 0 and `piQ/2` (four rational
+comparisons on model values, `δ` about the angular distance from coincidence / antipodality), the
+engine is within `R·2^-84/δ` of the real formula — e.g. `δ = 2^-20` (6 m on the Earth): 4e-13 m. -/
+theorem haversine_distance_engine_close_interior_partial (at2 : ℝ → ℝ → ℝ) (R : ℚ) (hR : 0 ≤ R)
+    (δ : ℚ) (hδ0 : 0 < δ) (hδ1 : δ ≤ 1) (a b : P2 ℚ)
+    (ha : |a.2| ≤ 90) (hb : |b.2| ≤ 90) (hl : |b.1 - a.1| ≤ 1000) (hc : havCert a b = true)
+    (hh1 : δ ^ 2 / 4 + 1 / 2 ^ 87 ≤ havH ratTrig a b) (hh2 : havH ratTrig a b ≤ 1 - δ ^ 2 / 4 - 1 / 2 ^ 87)
+    (ha1 : δ / 2 ≤ asinQ (sqrtQ (havH ratTrig a b))) (ha2 : asinQ (sqrtQ (havH ratTrig a b)) ≤ piQ / 2 - δ / 2) :
+    |((havDistance ratTrig R a b : ℚ) : ℝ) - havDistance (realTrig at2) (R : ℝ) (castP a) (castP b)|
+      ≤ (R : ℝ) / ((δ : ℝ) * 2 ^ 84) := by
+  rw [havDistance_rat_eq, havDistance_real_eq]
+  have h := C16Q.central_angle_close_interior δ hδ0 hδ1 a b ha hb hl hc hh1 hh2 ha1 ha2
+  have hRR : (0 : ℝ) ≤ (R : ℝ) := by exact_mod_cast hR
+  rw [Rat.cast_mul, ← mul_sub, abs_mul, abs_of_nonneg hRR, div_eq_mul_one_div]
+  exact mul_le_mul_of_nonneg_left h hRR
+-- full statement (not proved): the same without `havCert a b = true`.
+
+example :
+    let a : P2 ℚ := (10, 50); let b : P2 ℚ := (-170, -35); let δ : ℚ := 1 / 1000
+    δ ^ 2 / 4 + 1 / 2 ^ 87 ≤ havH Geo.GeodesyNum.ratTrig a b ∧
+    havH Geo.GeodesyNum.ratTrig a b ≤ 1 - δ ^ 2 / 4 - 1 / 2 ^ 87 ∧
+    δ / 2 ≤ Geo.GeodesyNum.asinQ (Geo.GeodesyNum.sqrtQ (havH Geo.GeodesyNum.ratTrig a b)) ∧
+    Geo.GeodesyNum.asinQ (Geo.GeodesyNum.sqrtQ (havH Geo.GeodesyNum.ratTrig a b)) ≤
+      Geo.GeodesyNum.piQ / 2 - δ / 2 := by
+  decide +kernel
+
+open Geo.GeodesyNum in
+/-- [T] on the mean Earth radius: 6 micrometres. -/
+theorem haversine_distance_engine_close_mean_earth_partial (at2 : ℝ → ℝ → ℝ) (a b : P2 ℚ)
+    (ha : |a.2| ≤ 90) (hb : |b.2| ≤ 90) (hl : |b.1 - a.1| ≤ 1000) (hc : havCert a b = true) :
+    |((havDistance ratTrig (63710088 / 10) a b : ℚ) : ℝ) -
+      havDistance (realTrig at2) ((63710088 / 10 : ℚ) : ℝ) (castP a) (castP b)| ≤ 6 / 10 ^ 6 := by
+  refine le_trans (haversine_distance_engine_close_partial at2 (63710088 / 10) (by norm_num) a b ha hb hl hc) ?_
+  norm_num
 
 end Geo.Proofs.C16
